@@ -185,14 +185,15 @@ def check_runner_state(repo: Repo, run: Run, prop: str) -> None:
     for modname, rname in (("celpy", "InterpretedRunner"), ("celpy", "CompiledRunner"), ("c7nlib", "C7N_Interpreted_Runner")):
         mod = repo.mod(modname)
         rcls = mod.cls(rname)
-        meths = class_methods(rcls)
+        from ..core.model import class_methods_n
+
+        meths = class_methods_n(rcls)  # private helpers (`self._new_evaluator()`) expanded in place
         evalm = meths.get("evaluate")
         if evalm is None:
             raise AnchorMissing(f"{modname}.{rname}.evaluate")
-        # fields assigned in __init__ (of this class) from a constructor call: field -> class name
+        # fields assigned (in any method of this class) from a constructor call: field -> class name
         kept: Dict[str, str] = {}
-        init = meths.get("__init__")
-        if init is not None:
+        for init in [m for name, m in meths.items() if name != "evaluate"]:
             for n in ast.walk(init):
                 if isinstance(n, ast.Assign) and isinstance(strip_cast(n.value), ast.Call):
                     cname = (dotted(strip_cast(n.value).func) or "").split(".")[-1]
@@ -215,6 +216,8 @@ def check_runner_state(repo: Repo, run: Run, prop: str) -> None:
                            f"{rname} keeps a {cname} between calls; {cname}.{c.func.attr} " +
                            (f"re-assigns its working state {fields} on every path" if not bad else
                             f"does not reset {bad} on every path: a call with empty bindings runs against the previous call's state"), mod.loc(c))
+                elif recv.startswith("self."):
+                    run.inconclusive(f"{prop}.H6", f"{rname}.evaluate", f"evaluates with the kept object `{recv}` whose class could not be determined")
                 else:
                     run.ob(f"{prop}.H6", f"{rname}.evaluate|per-call", True, f"{rname}.evaluate evaluates with an object created by this call ({recv or 'local'})", mod.loc(c))
         if not found:
@@ -299,13 +302,29 @@ def check_channels(repo: Repo, run: Run, prop: str) -> None:
     # containers of mutable elements: every element stored into the new container is a fresh clone on all paths
     for cname in ("NameContainer",):
         clone = class_methods(ev.cls(cname)).get("clone")
-        stores = [n_ for n_ in ast.walk(clone) if isinstance(n_, ast.Assign) and isinstance(n_.targets[0], ast.Subscript)
-                  and isinstance(n_.targets[0].value, ast.Name) and n_.targets[0].value.id != "self"]
-        for st in stores:
+        # element values stored into the copy: `new[k] = <v>`, `new.update((k, <v>) for ...)`, `{k: <v> for ...}`,
+        # `new.setdefault(k, <v>)`
+        stores = []
+        for n_ in ast.walk(clone):
+            if isinstance(n_, ast.Assign) and isinstance(n_.targets[0], ast.Subscript) and isinstance(n_.targets[0].value, ast.Name) and n_.targets[0].value.id != "self":
+                stores.append((n_.value, n_))
+            if isinstance(n_, ast.Call) and isinstance(n_.func, ast.Attribute) and isinstance(n_.func.value, ast.Name) and n_.func.value.id != "self":
+                if n_.func.attr == "update" and n_.args:
+                    a = strip_cast(n_.args[0])
+                    if isinstance(a, (ast.GeneratorExp, ast.ListComp)) and isinstance(strip_cast(a.elt), ast.Tuple) and len(strip_cast(a.elt).elts) == 2:
+                        stores.append((strip_cast(a.elt).elts[1], n_))
+                    elif isinstance(a, ast.DictComp):
+                        stores.append((a.value, n_))
+                if n_.func.attr == "setdefault" and len(n_.args) == 2:
+                    stores.append((n_.args[1], n_))
+            if isinstance(n_, ast.DictComp) and any("self" in ast.unparse(g.iter) for g in n_.generators) and not any(n_ is s0[0] for s0 in stores):
+                if not any(isinstance(p_, ast.Call) and getattr(p_.func, "attr", "") == "update" for p_ in [getattr(n_, "_parent", None)]):
+                    stores.append((n_.value, n_))
+        for value, st in stores:
             n3 += 1
-            fresh = is_fresh(st.value, classes) and not isinstance(strip_cast(st.value), (ast.Dict, ast.List))
+            fresh = is_fresh(value, classes) and not isinstance(strip_cast(value), (ast.Dict, ast.List))
             run.ob(f"{prop}.H3", f"{cname}.clone|elements", fresh,
-                   f"{cname}.clone stores `{ast.unparse(st.value)[:50]}` into the copy: " + ("a fresh clone" if fresh else
+                   f"{cname}.clone stores `{ast.unparse(value)[:50]}` into the copy: " + ("a fresh clone" if fresh else
                    "the original Referent object is shared with the container the runner keeps; load_values() then writes this call's binding into it"),
                    ev.loc(st))
         if not stores:
